@@ -1510,7 +1510,8 @@ class System:
         ):
             raise ValueError("Load components require a dict as phase_conf!")
 
-        self._g.attrs["phase_conf"][name] = phase_conf
+        # store under the component name (name may be the component's rail name)
+        self._g.attrs["phase_conf"][self._g[cidx]._params["name"]] = phase_conf
 
     def phases(self) -> pd.DataFrame:
         """Return load phases and parameters for all system components.
